@@ -607,7 +607,7 @@ impl Sched {
                 self.conf_left -= 1;
             }
             Choice::ReadIndex { ctx, .. } => {
-                *ctx = format!("r{}", self.next_ctx);
+                *ctx = format!("r{:02}", self.next_ctx);
                 self.next_ctx += 1;
                 self.reads_left -= 1;
             }
